@@ -140,7 +140,7 @@ pub fn unit3() -> BoxedStrategy<P3> {
             let r = (1.0 - z * z).max(0.0).sqrt();
             [r * th.cos(), r * th.sin(), z]
         }),
-        1 => prop::sample::select(vec![[1.0, 0.0, 0.0], [0.0, 1.0, 0.0], [0.0, 0.0, 1.0], [0.0, 0.0, -1.0]]),
+        1 => prop::sample::select(vec![[1.0, 0.0, 0.0], [0.0, 1.0, 0.0], [0.0, 0.0, 1.0], [0.0, 0.0, -1.0], [-1.0, 0.0, 0.0], [0.0, -1.0, 0.0]]),
     ]
     .boxed()
 }
